@@ -80,8 +80,10 @@ def run(opts):
             part = items[lo:lo + 20000]
             if not part:
                 continue
-            exp, sk = oracle(vf, part, chk.rundir)
+            exp, sk, st = oracle(vf, part, chk.rundir)
             skipped += sk
+            chk.states += st[0]
+            chk.transitions += st[1]
             cpath = os.path.join(chk.rundir, what + "_cases.ndjson")
             epath = os.path.join(chk.rundir, what + "_exp.ndjson")
             tpath = os.path.join(chk.rundir, what + "_trace.ndjson")
